@@ -142,6 +142,15 @@ func evalC11(e *Eval) {
 			}
 		}
 	}
+	// a union is analysed as soon as a node of it is reachable from the result, whatever the key it
+	// is registered under (a union first met through an alias is stored under the alias)
+	for _, node := range nodes {
+		if u, ok := node.(*analysis.Union); ok {
+			if n, ok := types.Unalias(u.Type()).(*types.Named); ok && analysedUnions[n] == nil {
+				analysedUnions[n] = u
+			}
+		}
+	}
 	nUnion, nStruct, nImpl := 0, 0, 0
 	// classification of every named interface key
 	for ty, node := range an.Types {
